@@ -96,6 +96,11 @@ func main() {
 		debugSub(loadResolve("", true))
 	case "debug-narrow":
 		debugNarrow(loadResolve("", true))
+	case "debug-step":
+		p := loadResolve("", true)
+		for _, ps := range doubleStepSites(p, "semver", "pypi", "maven", "resolve", "resolve/npm", "resolve/maven", "resolve/pypi", "resolve/schema", "resolve/internal/deptest", "resolve/internal/versiontest", "resolve/dep", "resolve/version") {
+			fmt.Println(p.pos(ps))
+		}
 	case "debug-sign":
 		if len(os.Args) > 2 {
 			repoRoot = os.Args[2]
